@@ -14,14 +14,26 @@ EXTENDS Obs_Numbers, TLC, Json, IOUtils
 Rec == ndJsonDeserialize(IOEnv.TRACE)
 VARIABLES l, failed, drift
 vars == <<l, failed, drift>>
-N == INSTANCE Numbers WITH Hack <- {"undo", "pair"}
+N == INSTANCE Numbers WITH Hack <- {"v2"}
 ClsOf(e, k) == LET p == Locate(e.hunks, k) IN IF p = <<0, 0>> THEN "zero" ELSE e.hunks[p[1]].cls[p[2]]
 AsRow(e, x) == IF e.mode = "unified" THEN [v |-> "u", l |-> IF x.k = 0 THEN "cont" ELSE "first", r |-> ClsOf(e, x.k)]
                ELSE [v |-> IF x.z THEN "z" ELSE "pm", l |-> x.sl, r |-> x.sr]
+\* the four numbers a row shows (left panel old/new, right panel old/new); unified rows have one panel
+ShownNums(e, x) == IF e.mode = "unified" THEN [ll |-> x.nm, lr |-> x.np, rl |-> 0, rr |-> 0]
+               ELSE [ll |-> x.nm, lr |-> x.npl, rl |-> x.nmr, rr |-> x.np]
+Mask(e, p) == IF e.mode = "unified" THEN p
+              ELSE [ll |-> IF e.fmt[1] THEN p.ll ELSE 0, lr |-> IF e.fmt[2] THEN p.lr ELSE 0,
+                    rl |-> IF e.fmt[3] THEN p.rl ELSE 0, rr |-> IF e.fmt[4] THEN p.rr ELSE 0]
+HunkRows(e, a) == SelectSeq(e.rows, LAMBDA x : x.h = a)
 Drifts(e) == e.code = 0 /\ \E a \in DOMAIN e.hunks :
-   LET rs == SelectSeq(e.rows, LAMBDA x : x.h = a)
+   LET rs == HunkRows(e, a)
        pred == N!Run([i \in DOMAIN rs |-> AsRow(e, rs[i])], 1, e.hunks[a].so, e.hunks[a].sn)
-   IN \E i \in DOMAIN rs : pred[i].nl # rs[i].nm \/ pred[i].nr # rs[i].np
+   IN \E i \in DOMAIN rs : Mask(e, pred[i]) # ShownNums(e, rs[i])
+\* C05 by rows: every number a row shows is the true one for that row (empty halves and continuation rows included)
+RowsBad(e) == {a \in DOMAIN e.hunks :
+   LET rs == HunkRows(e, a) IN
+   ~N!AllTrue([i \in DOMAIN rs |-> AsRow(e, rs[i])], e.hunks[a].so, e.hunks[a].sn, [i \in DOMAIN rs |-> ShownNums(e, rs[i])],
+              IF e.mode = "unified" THEN <<TRUE, TRUE, TRUE, TRUE>> ELSE e.fmt)}
 
 Known(e, k) == Locate(e.hunks, k) # <<0, 0>>
 
@@ -51,7 +63,9 @@ Why(e) ==
   ELSE IF ~HeaderOK(e) THEN <<"hunk-header-number", 0>>
   ELSE IF ~Shown(e) THEN <<"lines-shown", 0>>
   ELSE LET b == IF e.mode = "unified" THEN UnifiedBad(e) ELSE SbsBad(e) IN
-       IF b = {} THEN <<"", 0>> ELSE <<"number", CHOOSE r \in b : \A q \in b : r <= q>>
+       IF b # {} THEN <<"number", CHOOSE r \in b : \A q \in b : r <= q>>
+       ELSE IF RowsBad(e) # {} THEN <<"number-on-row", CHOOSE a \in RowsBad(e) : TRUE>>
+       ELSE <<"", 0>>
 
 Init == l = 1 /\ failed = <<>> /\ drift = <<>>
 Next == /\ l <= Len(Rec)
